@@ -307,6 +307,10 @@ func c13CtxFuncs(c *Ctx) {
 					if _, ok := e.(*ssa.Parameter); ok {
 						hasParam = true
 					}
+					// the fold may start from the request's own context when it sits in a helper handed the request
+					if ic, ok := e.(*ssa.Call); ok && ir.CallName(ic) == "(*net/http.Request).Context" {
+						hasParam = true
+					}
 				}
 				acc = hasSelf && hasParam
 			}
